@@ -306,6 +306,10 @@ func TestCheck(t *testing.T) {
 	// ---- layer B ---- (before the real-block part of layer A so that a deadline never cuts it)
 	bstat := runAtomic(c)
 
+	// ---- layer A, multi-transaction blocks (one VM is reused within a block) ----
+	nMulti := c.runMulti()
+	fmt.Printf("layer A multi-transaction blocks: %d blocks, %.1fs\n", nMulti, r.Elapsed())
+
 	// ---- layer A, real blocks ----
 	var bUndone, bFault, bHalt vk.Counter
 	nbc := (len(blk) + blockChunk - 1) / blockChunk
